@@ -42,19 +42,44 @@ class Ins:
 
 class AsmText:
     def __init__(self, repo):
-        mod = repo.module(STDLIB)
-        val = repo.module_assign(STDLIB, 'stdlib_lines')
-        consts = [n for n in ast.walk(val) if isinstance(n, ast.Constant) and isinstance(n.value, str)
-                  and len(n.value) > 200]
-        if len(consts) != 1:
-            raise AnalysisError('stdlib_lines: expected exactly one assembly text constant, '
-                                f'found {len(consts)}')
-        self.const_node = consts[0]
-        # the pipeline applied to the text (dedent / strip / encode / split / filter) is checked
-        self.pipeline = src(val)
-        text = textwrap.dedent(consts[0].value).strip('\n')
-        self.lines = [ln for ln in text.split('\n') if ln]
-        self.base_line = consts[0].lineno
+        # The emitted library is whatever the module binds to `stdlib_lines`.  However the Python source composes it
+        # (one literal, several pieces joined, helper functions producing repeated fragments), the value is a pure
+        # function of the module text: it is obtained by interpreting the module's syntax tree (CONSTEVAL; the
+        # repository is never imported), not by looking for one particular string constant.
+        from .consteval import Interp
+        cache = repo.__dict__.setdefault('_asmtext_cache', {})
+        if 'lines' not in cache:
+            it = Interp(repo)
+            it.allow_generators = True
+            try:
+                ns = it.load(STDLIB)
+                val = ns['stdlib_lines']
+                val = list(val)
+            except AnalysisError:
+                raise
+            except Exception as e:      # noqa: BLE001
+                raise AnalysisError(f'stdlib_lines: cannot evaluate the library text of {STDLIB}: {type(e).__name__}: {e}')
+            cache['lines'] = val
+        val = cache['lines']
+        self.emitted = val
+        # shape of the value gen_lines will write out line by line
+        self.shape_problem = None
+        if not val or not all(isinstance(x, bytes) for x in val):
+            self.shape_problem = 'stdlib_lines is not a non-empty list of bytes objects'
+        elif any(b'\n' in x or b'\r' in x for x in val):
+            self.shape_problem = 'an element of stdlib_lines contains a line break'
+        elif any(not x.strip() for x in val):
+            self.shape_problem = 'stdlib_lines contains blank elements'
+        if self.shape_problem and not all(isinstance(x, bytes) for x in val or [0]):
+            raise AnalysisError('stdlib_lines: ' + self.shape_problem)
+        try:
+            self.lines = [x.decode('utf-8') for x in val]
+        except UnicodeDecodeError as e:
+            raise AnalysisError(f'stdlib_lines: {e}')
+        # best effort source line of the text (for messages only): the first long string constant of the module
+        consts = [n for n in ast.walk(repo.module(STDLIB)) if isinstance(n, ast.Constant) and isinstance(n.value, str)
+                  and '\n' in n.value and len(n.value) > 40]
+        self.base_line = consts[0].lineno if len(consts) == 1 else 0
         self.ins = []
         self.labels = {}
         self._parse()
